@@ -38,13 +38,32 @@ def nontrivial(req, impl):
     return impl.startswith("ok") or impl.startswith("diag")
 
 
+_TRIM = "\t\n\x0b\x0c\r \x85\xa0\u1680\u2000\u2001\u2002\u2003\u2004\u2005\u2006\u2007\u2008\u2009\u200a\u2028\u2029\u202f\u205f\u3000"
+
+
 def classify(req, impl):
+    r = req.split("\t")
+    out = []
+    if r[0] == "iso.parse" and len(r) > 3:
+        out.append("gen:" + r[3])          # generator class of the case
     f = impl.split(" ")
     if f[0] == "ok":
-        return ["ok", "decl:" + f[1][0]]
-    if f[0] == "diag":
-        return ["diag", "diag:" + f[1]]
-    return f[0]
+        out += ["ok", "decl:" + f[1][0]]
+    elif f[0] == "diag":
+        out += ["diag", "diag:" + f[1]]
+        if f[1] == "leftover" and r[0] == "iso.parse":
+            # inputs on which an end computed from `trim_end()` would lie before the start of the span
+            try:
+                text = bytes.fromhex(r[1].replace("-", "")).decode()
+                if len(text.rstrip(_TRIM).encode()) < int(f[2].split(":")[0]):
+                    out.append("hit:leftover-start-beyond-trim_end")
+            except Exception:
+                pass
+        if f[1] == "selset" and len(r) > 3 and r[3] == "trunc-header-glued-multibyte":
+            out.append("hit:selset-header-glued-to-multibyte")
+    else:
+        out.append(f[0])
+    return out
 
 
 def check_distribution(dist, cases):
@@ -56,6 +75,13 @@ def check_distribution(dist, cases):
     kinds = [k for k in dist if k.startswith("class:diag:")]
     if len(kinds) < 10:
         return f"only {len(kinds)} different diagnostic kinds were produced"
+    # the input classes behind two regressions that an earlier generator never produced
+    need = {"class:hit:leftover-start-beyond-trim_end": 100, "class:hit:selset-header-glued-to-multibyte": 30,
+            "class:gen:trail-uniws": 20, "class:gen:trail-mix": 20, "class:gen:trunc-glued-multibyte": 40,
+            "class:gen:insert-glued-multibyte": 20, "class:gen:insert-uniws": 20}
+    for k, n in need.items():
+        if dist.get(k, 0) * 4000 < n * cases:
+            return f"{k[6:]}: only {dist.get(k, 0)} of {cases} cases (at least {n} per 4000 expected)"
     return None
 
 
